@@ -409,7 +409,7 @@ def replay(path, out):
     for side in ("a", "b"):
         m = (obj.get("model") or {}).get(side)
         if m:
-            D.add(obj[side], ("replay", side), 1, tuple(m["normal_form"]), tuple(tuple(x) for x in m["shift_forms"]), tuple(m["hash_events"]),
+            D.add(obj[side], ("replay", side), 1, tuple(m["normal_form"]), tuple(tuple(x) for x in m.get("shift_forms", [])), tuple(m["hash_events"]),
                   m["undetected_implicit_body"], "style")
         else:
             D.add(obj[side], None, 0, ("invalid", obj[side]), (), ("invalid", obj[side]), False, "corrupt")
